@@ -1,7 +1,7 @@
 #!/bin/bash
 # tools/mutant_round.sh <seed_dir_prefix> <Cxx> ... : confirm + run the check for mutants 1..3 of each property, summary in /tmp/mutround_<Cxx>.log
 PFX="$1"; shift
-cd /verif
+cd "${VERIF_HOME:-/verif}"
 for p in "$@"; do
   for k in 1 2 3; do
     d="${PFX}_$p/mutants/$k"
